@@ -1019,8 +1019,8 @@ pub fn run_c15(tier: &str, seed: u64) -> Report {
         let s = vec![ClaimOp::Set(Claim::Custom("n".into(), json!(1)))];
         for (layer, dp) in [(Layer::Generic, false), (Layer::Batteries, false), (Layer::Batteries, true)] {
             let mut combos: Vec<(Vec<Claim>, Vec<VSpec>, bool)> = vec![
-                (vec![Claim::Custom("role".into(), json!("admin"))], vec![VSpec { claim: Claim::Custom("role".into(), json!("dummy")), behave: VBehave::Accept, reg: VReg::ValidateClaim, second: false }], true),
-                (vec![Claim::Aud("customers".into())], vec![VSpec { claim: Claim::Aud("dummy".into()), behave: VBehave::Accept, reg: VReg::ValidateClaim, second: false }], true),
+                (vec![Claim::Custom("role".into(), json!("admin"))], vec![VSpec { claim: Claim::Custom("role".into(), json!("dummy")), behave: VBehave::Accept, reg: VReg::ValidateClaim, second: false, odd: 0 }], true),
+                (vec![Claim::Aud("customers".into())], vec![VSpec { claim: Claim::Aud("dummy".into()), behave: VBehave::Accept, reg: VReg::ValidateClaim, second: false, odd: 0 }], true),
             ];
             // (the validator is registered FIRST, check_claim afterwards: the other order replaces the expectation by the
             // validator's placeholder claim, which is the API's "last registration wins" and not a defect)
@@ -1309,7 +1309,9 @@ fn random_validators(rng: &mut Rng, s: &Map<String, Value>, allow_extend: bool, 
         let dummy = if val.is_string() || val.is_null() { json!("dummy") } else { val.clone() };
         let claim = to_claim(&k, &if RESERVED.contains(&k.as_str()) { json!(if ["exp", "nbf", "iat"].contains(&k.as_str()) { "2019-01-01T00:00:00+00:00" } else { "dummy" }) } else { dummy });
         let reg = if allow_extend && rng.chance(1, 3) { VReg::ExtendOnly } else { VReg::ValidateClaim };
-        v.push(VSpec { claim, behave, reg, second: false });
+        // every fifth validate_claim registration uses a user-defined claim type that only names the key
+        let odd = if reg == VReg::ValidateClaim && rng.chance(1, 5) { 1 + rng.below(4) as u8 } else { 0 };
+        v.push(VSpec { claim, behave, reg, second: false, odd });
     }
     v
 }
@@ -1382,7 +1384,7 @@ pub fn run_c16(tier: &str, seed: u64) -> Report {
                 for (vi, behave) in [VBehave::Reject, VBehave::Accept, VBehave::AcceptIfPresent].into_iter().enumerate() {
                     let reg = if layer == Layer::Generic && (ti + vi) % 2 == 1 { VReg::ExtendOnly } else { VReg::ValidateClaim };
                     let claim = if vi == 1 { Claim::Custom("k".into(), json!(0)) } else { Claim::Aud("x".into()) };
-                    let c = C16Case { validators_first: false, p, key: key.clone(), s: vec![], validators: vec![VSpec { claim, behave, reg, second: false }], expected: vec![], layer, default_parser: dp, forgery: "authentic".into(), class: "non-object-payload".into(), raw_payload: Some(text.to_string()) };
+                    let c = C16Case { validators_first: false, p, key: key.clone(), s: vec![], validators: vec![VSpec { claim, behave, reg, second: false, odd: 0 }], expected: vec![], layer, default_parser: dp, forgery: "authentic".into(), class: "non-object-payload".into(), raw_payload: Some(text.to_string()) };
                     let before = rn.violations_total;
                     c16_eval(&c, &mut rn, seed);
                     if rn.violations_total == before {
@@ -1394,6 +1396,49 @@ pub fn run_c16(tier: &str, seed: u64) -> Report {
     }
     rn.require("non-object payloads: validators run with null and are honoured", 300);
     total.merge(rn);
+
+    // ---- LARGE tokens altered in their tail (beyond any size threshold that switches the MAC to a windowed path): the
+    // validator must not be handed the altered value
+    let mut rl = Report::new();
+    for &p in &[P::V4L, P::V3L, P::V1L, P::V2L, P::V4P, P::V2P] {
+        let key = pools.key(p, 0);
+        for n in [5000usize, 9000, 17_000] {
+            let text = format!("{{\"pad\":\"{}\",\"role\":\"user\"}}", "p".repeat(n));
+            let ia0 = if p.has_assertion() { Some("ia") } else { None };
+            let tok = match core_seal(p, &key, &[0x33; 32], &text, Some("ftr"), ia0).0 {
+                Out::Ok(t) => t,
+                _ => continue,
+            };
+            let pt = match crate::c03::parts(p, &tok) {
+                Some(x) => x,
+                None => continue,
+            };
+            let body_end = pt.payload.len() - p.trailer_len();
+            for back in [3usize, 9, 40, 100, 130, 260] {
+                let mut pl = pt.payload.clone();
+                pl[body_end - back] ^= 0x01;
+                let forged = format!("{}{}.{}", p.header(), util::b64(&pl), pt.footer_b64.unwrap_or(""));
+                for layer in [Layer::Generic, Layer::Batteries] {
+                    let cfg = ParserCfg { footer: Some("ftr".into()), assertion: ia0.map(|x| x.to_string()), validators: vec![VSpec { claim: Claim::Custom("role".into(), json!("dummy")), behave: VBehave::Accept, reg: VReg::ValidateClaim, second: false, odd: 0 }, VSpec { claim: Claim::Custom("pad".into(), json!("dummy")), behave: VBehave::Accept, reg: VReg::ValidateClaim, second: false, odd: 0 }], ..Default::default() };
+                    let _ = vlog_take();
+                    let out = if layer == Layer::Generic { generic_open(p, &key, &forged, &cfg).0 } else { batteries_open(p, &key, &forged, &cfg).0 };
+                    let log = vlog_take();
+                    rl.evaluations += 1;
+                    if !log.is_empty() || out.is_ok() || out.is_panic() {
+                        rl.violation(
+                            format!("C16 validator-invoked-on-altered-large-token {}/{}", p.name(), layer.name()),
+                            format!("{}/{}: a {}-byte-message token with one bit flipped {} bytes before the end of its body: outcome {}, validators were handed {:?}", p.name(), layer.name(), n, back, out.class(), log.iter().map(|(k, v)| (k.clone(), util::clip(&v.to_string(), 30))).collect::<Vec<_>>()),
+                            json!({"cmd": "C16", "note": "large-token case: re-run the check", "protocol": p.name(), "message_bytes": n, "flipped_bytes_before_body_end": back}),
+                        );
+                    } else {
+                        rl.count("altered large tokens: no validator invoked");
+                    }
+                }
+            }
+        }
+    }
+    rl.require("altered large tokens: no validator invoked", 150);
+    total.merge(rl);
 
     // ---- live parsers: validators are ADDED between parses of one parser object (validate_claim / extend_validation_claims);
     // after each addition every validator registered so far must run on the next parse and be honoured
@@ -1433,7 +1478,7 @@ pub fn run_c16(tier: &str, seed: u64) -> Report {
             let reg = if layer == Layer::Generic && rng.chance(1, 2) { VReg::ExtendOnly } else { VReg::ValidateClaim };
             let val = sm.get(k).cloned().unwrap_or(json!("x"));
             let claim = if RESERVED.contains(&k.as_str()) { if val.is_string() { to_claim(k, &val) } else { continue } } else { Claim::Custom(k.clone(), val) };
-            specs.push(VSpec { claim, behave, reg, second: false });
+            specs.push(VSpec { claim, behave, reg, second: false, odd: 0 });
         }
         if specs.len() <= initial {
             return;
@@ -1467,7 +1512,7 @@ pub fn run_c16(tier: &str, seed: u64) -> Report {
         if i % 2 == 0 {
             let rekey = if dp { Claim::Exp("2019-01-01T00:00:00+00:00".into()) } else { specs[0].claim.clone() };
             for (behave, want_ok) in [(VBehave::Accept, None::<bool>), (VBehave::Reject, Some(false))] {
-                let v2 = VSpec { claim: rekey.clone(), behave, reg: if layer == Layer::Generic && i % 4 == 0 { VReg::ExtendOnly } else { VReg::ValidateClaim }, second: true };
+                let v2 = VSpec { claim: rekey.clone(), behave, reg: if layer == Layer::Generic && i % 4 == 0 { VReg::ExtendOnly } else { VReg::ValidateClaim }, second: true, odd: 0 };
                 let mut steps2 = steps.clone();
                 steps2.push(PStep::Validate(v2.clone()));
                 steps2.push(PStep::Parse { token: tok.clone(), key: 0 });
@@ -1514,8 +1559,8 @@ pub fn run_c16(tier: &str, seed: u64) -> Report {
         let p = [P::V4L, P::V4P, P::V2L, P::V3L, P::V2P][i % 5];
         let key = pools.key(p, i % pools.count(p));
         let validators = vec![
-            VSpec { claim: Claim::Custom("role".into(), json!("dummy")), behave: VBehave::AcceptIfEq(json!("admin")), reg: VReg::ValidateClaim, second: false },
-            VSpec { claim: Claim::Aud("dummy".into()), behave: VBehave::AcceptIfPresent, reg: VReg::ValidateClaim, second: false },
+            VSpec { claim: Claim::Custom("role".into(), json!("dummy")), behave: VBehave::AcceptIfEq(json!("admin")), reg: VReg::ValidateClaim, second: false, odd: 0 },
+            VSpec { claim: Claim::Aud("dummy".into()), behave: VBehave::AcceptIfPresent, reg: VReg::ValidateClaim, second: false, odd: 0 },
         ];
         let specs: Vec<Vec<ClaimOp>> = vec![
             vec![ClaimOp::Set(Claim::Custom("role".into(), json!("admin"))), ClaimOp::Set(Claim::Aud("a".into()))],
@@ -1575,4 +1620,4 @@ pub fn replay_c16(rec: &Value, case: &Value) -> Report {
     r
 }
 
-pub const RULE_C16: &str = "harness validators are static functions that append (key, value) to a thread-local call log and answer from a behaviour table (accept / reject / accept-iff-equal / accept-iff-present). For seeded random token claim sets, 0-3 validators over registered and custom keys (present and absent in the payload) are registered through validate_claim and, on GenericParser, through extend_validation_claims only; parsers: GenericParser, PasetoParser::new(), PasetoParser::default(). Each configuration parses either the authentic token or a forgery (wrong key, wrong footer, wrong assertion, relabelled header, bit flip, truncation). Monitors: no log entry for a forged token; for an authentic token every logged value equals the payload member (null when absent), each key at most once, Ok only if every registered validator ran and accepts, Err only if a validator or expectation fails, and the error stems from a rejecting validator. Plus 300 (thorough 3000) sequences where one parser processes shuffled authentic and forged tokens; 400 (thorough 4000) LIVE-parser sessions in which validators are added (validate_claim / extend_validation_claims) between parses of one parser object and every validator registered so far must run and be honoured on the next parse, incl. a second, distinguishable validator registered for a key that already has one (on the default parser: replacing the built-in exp validator) — the last registration runs and is honoured; authentic tokens whose payload is JSON but not an object (sealed at the core layer): validators still run, with null. distinct_nontrivial = distinct (protocol, parser kind, authentic|forgery kind, outcome, #validators, #rejecting, registration routes)";
+pub const RULE_C16: &str = "harness validators are static functions that append (key, value) to a thread-local call log and answer from a behaviour table (accept / reject / accept-iff-equal / accept-iff-present). For seeded random token claim sets, 0-3 validators over registered and custom keys (present and absent in the payload) are registered through validate_claim (every fifth time with a USER-DEFINED claim type that only names the key and serialises as a unit, a string or an object without / with more than that member) and, on GenericParser, through extend_validation_claims only; parsers: GenericParser, PasetoParser::new(), PasetoParser::default(). Each configuration parses either the authentic token or a forgery (wrong key, wrong footer, wrong assertion, relabelled header, bit flip, truncation). Monitors: no log entry for a forged token; for an authentic token every logged value equals the payload member (null when absent), each key at most once, Ok only if every registered validator ran and accepts, Err only if a validator or expectation fails, and the error stems from a rejecting validator. Plus large tokens (5 000 / 9 000 / 17 000-byte messages) with one bit flipped near the end of the body: no validator may be invoked. Plus 300 (thorough 3000) sequences where one parser processes shuffled authentic and forged tokens; 400 (thorough 4000) LIVE-parser sessions in which validators are added (validate_claim / extend_validation_claims) between parses of one parser object and every validator registered so far must run and be honoured on the next parse, incl. a second, distinguishable validator registered for a key that already has one (on the default parser: replacing the built-in exp validator) — the last registration runs and is honoured; authentic tokens whose payload is JSON but not an object (sealed at the core layer): validators still run, with null. distinct_nontrivial = distinct (protocol, parser kind, authentic|forgery kind, outcome, #validators, #rejecting, registration routes)";
